@@ -563,7 +563,7 @@ func noSepAfter(b []byte, i int, sep byte) bool {
 //@   ensures [whole] isNilSlice(b2) ==> isNilSlice(b3) && sameSlice(b1, bts)
 //@   ensures [fewer] isNilSlice(b2) ==> forall(0, len(bts), func(i int) bool { return bts[i] != sep || noSepAfter(bts, i, sep) })
 //@   ensures [three] !isNilSlice(b2) ==> len(b1)+len(b2)+len(b3)+2 == len(bts) && sameSlice(b1, bts[:len(b1)]) && sameSlice(b2, bts[len(b1)+1:len(b1)+1+len(b2)]) && sameSlice(b3, bts[len(b1)+len(b2)+2:])
-//@   ensures [seps]  !isNilSlice(b2) ==> bts[len(b1)] == sep && bts[len(b1)+1+len(b2)] == sep && noSep(b1, sep) && noSep(b2, sep)
+//@   ensures [seps]  !isNilSlice(b2) ==> bts[len(b1)] == sep && bts[len(b1)+1+len(b2)] == sep && noSep(bts[:len(b1)], sep) && noSep(bts[len(b1)+1:len(b1)+1+len(b2)], sep)
 //@   assigns nothing
 
 func isHTTPSlash(b []byte) bool {
